@@ -267,9 +267,9 @@ example : let srcs := [[[97, 98], [99], [97, 98]].foldl Dict.observe Dict.defaul
     (mergedMG srcs).done.length = 2 ∧ freeTags srcs = 254 := by
   set_option maxRecDepth 100000 in decide
 
-/- Not proved (left as a statement): the converse direction and the compaction case — after `tidy`
-the summary keeps only the 512 heaviest keys with counts reduced by `l[512].2 - 1`; which source
-strings survive then depends on the (tie-breaking of the) sort by count, see the report. -/
+/- The compaction case (1024 or more insertions, `tidy` drops entries) is treated in Props/C07MG.lean:
+the Misra–Gries guarantee this `tidy` achieves, its composition through `new_from`, and
+`dominant_strings_tagged`. Not proved: the converse direction (which strings do NOT get a tag). -/
 
 /-! ### 6: the region laws, hence every composition over the codec region is covered -/
 
